@@ -624,6 +624,48 @@ func (c *Ctx) CYC(rule string) []report.Obligation {
 					}
 				}
 			}
+			// ... and names it by the very reference the file is loaded by: a name recomputed on the side (joined to a
+			// directory, cleaned) is not the name the next hop will compute for the same file once paths were
+			// rebased, so the tracker never sees a repetition
+			if ctxOK {
+				named := false
+				wcall := wv.(*ssa.Call)
+				val := wcall.Call.Args[2]
+				if mi, ok := val.(*ssa.MakeInterface); ok {
+					val = mi.X
+				}
+				for _, cs := range callSites(f, func(com *ssa.CallCommon) bool {
+					cal := com.StaticCallee()
+					return cal != nil && c.P.InModule(cal) && cal != f && len(c.callsTo(cal, "loader.loadYamlFile")) > 0
+				}) {
+					for _, a := range cs.Common().Args {
+						if a == val {
+							named = true
+						}
+						// ... or inside a struct of parameters built for the call
+						var al *ssa.Alloc
+						switch x := a.(type) {
+						case *ssa.Alloc:
+							al = x
+						case *ssa.UnOp:
+							al, _ = x.X.(*ssa.Alloc)
+						}
+						if al != nil {
+							for _, r := range *al.Referrers() {
+								if fa, isFA := r.(*ssa.FieldAddr); isFA {
+									for _, rr := range *fa.Referrers() {
+										if st, isSt := rr.(*ssa.Store); isSt && st.Val == val {
+											named = true
+										}
+									}
+								}
+							}
+						}
+					}
+				}
+				out = append(out, verdict(named, rule, "extends :: the extended file is tracked under the reference it is loaded by", c.P.InstrPos(wcall),
+					"the value stored in the context is the reference handed to the function that loads the file", "the name under which the extended file is tracked is computed separately from the reference it is loaded by ("+c.P.KeyTerm(val, 3)+"): the two can disagree (references inside an extended file are already rebased), a cycle is then never recognised and the resolution recurses without bound"))
+			}
 			out = append(out, verdict(ctxOK, rule, "extends :: services of an extended file are resolved in the context of that file", c.P.Pos(f.Pos()),
 				"the recursive call receives a context that names the extended file when the base comes from another file", "hops inside an extended file are recorded under the top-level file name: services of the two files with the same name collide"))
 		}
